@@ -89,7 +89,9 @@ class Canonicalizer:
         elif isinstance(expression, Product):
             # note: safe already sorts
             return Product.safe(
-                self.canonicalize(subexpr) for subexpr in _flatten_product(expression)
+                _flatten_expressions(
+                    self.canonicalize(subexpr) for subexpr in _flatten_product(expression)
+                )
             )
         elif isinstance(expression, Fraction):
             numerator = self.canonicalize(expression.numerator)
@@ -104,6 +106,14 @@ class Canonicalizer:
             return expression
         else:
             raise TypeError
+
+
+def _flatten_expressions(expressions: Iterable[Expression]) -> Iterable[Expression]:
+    for expression in expressions:
+        if isinstance(expression, Product):
+            yield from _flatten_product(expression)
+        else:
+            yield expression
 
 
 def _flatten_product(product: Product) -> Iterable[Expression]:
